@@ -17,7 +17,11 @@
 (*   ComputeTypes  CallTracer.compute_types;  Optimize  optimize.Optimize;  Print io._output_ast*)
 (*                                                                                              *)
 (* (vm.run_program first calls preprocess.augment_annotations, which parses the text and        *)
-(* swallows a SyntaxError; it is not a stage: an exception escaping it is an Escaped outcome.)   *)
+(* swallows a SyntaxError; it is not a stage: an exception escaping it is an Escaped outcome.    *)
+(* It REWRITES the text - ` = ...` after every bare annotation inside a function - and every     *)
+(* later stage sees the rewritten text; `nlines`, `cline` and the reported lines are all lines of *)
+(* the text AS GIVEN, so the rewrite must keep every line where it is: the composed texts and the *)
+(* exotic characters of the planned families below exercise exactly that.)                        *)
 (*                                                                                              *)
 (* A stage may FAIL only as follows, and the run then ends in the outcome shown:                *)
 (*   Directors / syntax   (only if CPython cannot compile the text)  -> CompileError(line)       *)
@@ -35,8 +39,9 @@
 (* Run event (k = 5) and one inside/before Analyze before the Analyze event (k = 6).  A sub-run  *)
 (* may itself trigger a sub-run from its Run (an annotation evaluated while an annotation is     *)
 (* evaluated), so the sub-machine is a stack: Compile pushes, Blocks marks, Run pops.            *)
-(* eval_expr catches a CompileError of the expression text (reported as an annotation error at   *)
-(* the line of the annotation), so a failing sub-Compile ends that sub-run and nothing else;     *)
+(* eval_expr catches a CompileError of the expression text (reported as ONE                       *)
+(* python-compiler-error at the line of the annotation, inside a Result: see ReportFails), so a   *)
+(* failing sub-Compile ends that sub-run and nothing else;                                        *)
 (* whether the *expression* compiles is independent of whether the file compiles.  Any other     *)
 (* exception in a sub-run is not caught and is an Escaped outcome like everywhere else.          *)
 (* The pure part (Allowed, Advance, Verdict) is what TraceC15.tla applies to recorded runs.     *)
@@ -56,7 +61,8 @@ Why(exc) == IF exc \in {"SyntaxError", "IndentationError", "TabError", "CompileE
 (* input attributes (the oracle side): inp = [compiles, cline, nlines, skip, mode]               *)
 (*   compiles : CPython's compile() accepts the text                                             *)
 (*   cline    : the line compile() blames (0 = it blames none, e.g. a NUL byte)                   *)
-(*   nlines   : number of lines of the text (a trailing newline opens a last, empty line)         *)
+(*   nlines   : number of lines of the text (a trailing newline opens a last, empty line); lines   *)
+(*              are CPython's: they end at LF (CR LF); FF VT FS GS RS NEL LS PS do not end a line  *)
 
 (* machine state: [k |-> main stages completed, phase |-> "run" | "end", out |-> outcome kind,   *)
 (*                 sub |-> stack of open sub-runs, innermost last: "compiled" | "blocks"]         *)
@@ -546,13 +552,17 @@ Planned(compiles) ==
                   /\ (~compiles => i.cline = MaxLines)}   \* blamed: the last line
 Unplanned == st.phase = "src" /\ muts = <<>> /\ plan.fam = "none" /\ CanonInput(inp)
 
-(* PlanCall(c): the text defines the callable c and calls it with every call shape, one call per   *)
-(* line; the plan carries the faults the language's binding rules give each call                    *)
-PlanCall(c) ==
-  /\ Unplanned /\ "call" \in Families /\ FlagIndex(c) \in CallFlagSlice
-  /\ plan' = [fam |-> "call", c |-> c,
-              calls |-> {[npos |-> call.npos, kws |-> call.kws, faults |-> BindingFaults(c, call),
-                          tfault |-> TypeFault(c, call)] : call \in CallsOf(c)}]
+(* PlanCall(ps, fi): the text defines every callable with the parameter names ps and the flag set  *)
+(* fi (one per kind; the non-callable values go with the empty list and no flag) and calls each    *)
+(* with every call shape, one call per line; the plan carries the faults the language's binding     *)
+(* rules give each call                                                                             *)
+Group(ps, fi) == {c \in Callables : c.ps = ps /\ FlagIndex(c) = fi}
+PlanCall(ps, fi) ==
+  /\ Unplanned /\ "call" \in Families /\ fi \in CallFlagSlice /\ Group(ps, fi) # {}
+  /\ plan' = [fam |-> "call", ps |-> ps, fi |-> fi,
+              group |-> {[c |-> c,
+                          calls |-> {[npos |-> call.npos, kws |-> call.kws, faults |-> BindingFaults(c, call),
+                                      tfault |-> TypeFault(c, call)] : call \in CallsOf(c)}] : c \in Group(ps, fi)}]
   /\ inp' \in Planned(TRUE)
   /\ UNCHANGED <<st, errs, muts, hist>>
 
@@ -627,7 +637,7 @@ Next == \/ \E k \in MutKinds, s \in Slots : Mutate(k, s)
         \/ /\ st.phase = "src" /\ muts = <<>>
            /\ \E pl \in Places, s \in Slots, ch \in ExoChars : MutateExo(pl, s, ch)
         \/ /\ Unplanned /\ "call" \in Families
-           /\ \E c \in {d \in Callables : FlagIndex(d) \in CallFlagSlice} : PlanCall(c)
+           /\ \E ps \in ParamLists, fi \in CallFlagSlice : PlanCall(ps, fi)
         \/ /\ Unplanned /\ "provoke" \in Families
            /\ \E k \in DOMAIN ProvokeTable : Provoke(k)
         \/ /\ Unplanned /\ "compose" \in Families
@@ -672,5 +682,5 @@ ExportInv ==
      PrintT(<<"CASE", ToJson([muts |-> muts, mode |-> inp.mode, plan |-> plan])>>)
 (* the plan families never leave the pinned catalogue: what a call plan expects is a class of it *)
 PlansInCatalogue ==
-  plan.fam = "call" => \A call \in plan.calls : call.faults \subseteq CallClasses
+  plan.fam = "call" => \A g \in plan.group : \A call \in g.calls : call.faults \subseteq CallClasses
 =============================================================================
